@@ -15,6 +15,8 @@ type Enc struct {
 	occ map[string]int
 	// assumptions recorded for the evidence (trusted callee contracts used, abstractions hit)
 	Notes map[string]bool
+	// quiet > 0 while evaluating under a quantifier: no definitions or assumptions may mention bound variables
+	quiet int
 }
 
 // Probe is a labelled term whose model value is wanted for replay.
@@ -55,7 +57,7 @@ func (e *Enc) Decl(base, sort string) Term {
 
 func (e *Enc) Def(base, sort string, t Term) Term {
 	// do not rename atoms
-	if !strings.ContainsAny(t, " (") {
+	if !strings.ContainsAny(t, " (") || e.quiet > 0 {
 		return t
 	}
 	n := e.fresh(base)
@@ -64,7 +66,7 @@ func (e *Enc) Def(base, sort string, t Term) Term {
 }
 
 func (e *Enc) Assume(t Term) {
-	if t == True {
+	if t == True || e.quiet > 0 {
 		return
 	}
 	e.lines = append(e.lines, "(assert "+t+")")
